@@ -463,7 +463,7 @@ func runScript(sc Script, serial *sync.Mutex) []Ev {
 		r.log(Ev{Ev: "note", Text: "setup: " + err.Error()})
 		return r.evs
 	}
-	if err := start(context.Background(), host); err != nil {
+	if err := startC(func(sc context.Context) error { return start(sc, host) }); err != nil {
 		r.log(Ev{Ev: "note", Text: "start: " + err.Error()})
 		return r.evs
 	}
@@ -612,7 +612,7 @@ func (r *runner) restart(store *xh.Store, host component.Host, opts []exporterhe
 		r.log(Ev{Ev: "note", Text: "restart setup: " + err.Error()})
 		return
 	}
-	if err := start(context.Background(), host); err != nil {
+	if err := startC(func(sc context.Context) error { return start(sc, host) }); err != nil {
 		r.log(Ev{Ev: "note", Text: "restart start: " + err.Error()})
 		return
 	}
@@ -678,4 +678,12 @@ func main() {
 	}
 	w.Flush()
 	out.Close()
+}
+
+// startC calls a component's Start with a context that is cancelled as soon as Start has returned: component.Component
+// says that context "will be cancelled soon", so nothing that has to outlive Start may depend on it.
+func startC(start func(context.Context) error) error {
+	ctx, cancel := context.WithCancel(context.Background())
+	defer cancel()
+	return start(ctx)
 }
